@@ -39,7 +39,7 @@ pub struct FaultCase {
 pub fn gen_case(rng: &mut Rng, thorough: bool) -> FaultCase {
   let cfg = Cfg {
     storage: StorageKind::Fs,
-    profile: *rng.pick(&[Profile::Basic, Profile::Basic, Profile::Nested]),
+    profile: *rng.pick(&[Profile::Basic, Profile::Basic, Profile::Nested, Profile::Rich]),
     positions: rng.chance(1, 2),
     ids: 2 + rng.usize(3),
     transparent: false,
